@@ -15,8 +15,10 @@ Positions are pairs `(board, only)`: `only` is the `searchmoves` restriction, wh
 * capture children = the legal moves among `genNonQuiescent b`; stand-pat = `evalFor b b.turn true`; quiescence never
                      tests for mate (a mated side without capture "stands pat").
 
-`specValue` runs the VERIFIED alpha-beta `Minimax.ab` (natural move order, full window; captures by descending
-MVV-LVA, which `quiescence_clamp` shows to be irrelevant) – Props/C08 proves it equal to the plain minimax `Minimax.mm`.
+`specValue` runs the VERIFIED alpha-beta `Minimax.ab` with the full window – Props/C08 proves it equal to the plain
+minimax `Minimax.mm` for EVERY move order (`specValue_eq_mm`, `specValue_order_irrelevant`).  The oracle visits moves
+and captures by descending MVV-LVA (`searchOrder`): with the generator's natural order the depth-3 search of a
+middlegame position takes minutes instead of seconds (measured 155 s vs 2.8 s), the values are the same.
 Core Lean only.
 -/
 namespace Inkayaku.SpecSearch
@@ -55,8 +57,11 @@ def byMvvLva : Pos → List Move → List Move := fun _ l => l.mergeSort fun a b
 /-- the specification game (exact horizon values) together with the windowed horizon evaluator -/
 def game : Game Pos Move := chess.game byMvvLva
 
+/-- the move order used by the oracle (any order gives the same values: `C08.order_irrelevant`) -/
+def searchOrder : Pos → List Move → List Move := byMvvLva
+
 /-- the verified alpha-beta, full window `[lossScore, winScore]` -/
-def specSearch (depth : Nat) (p : Pos) : Int × Option Move := ab game natural depth p lossScore (-lossScore)
+def specSearch (depth : Nat) (p : Pos) : Int × Option Move := ab game searchOrder depth p lossScore (-lossScore)
 
 /-- exact minimax value of depth `depth` (see `C08.specValue_eq_mm`) -/
 def specValue (depth : Nat) (b : Board) : Int := (specSearch depth (b, [])).1
@@ -64,16 +69,38 @@ def specValue (depth : Nat) (b : Board) : Int := (specSearch depth (b, [])).1
 /-- the same with a `searchmoves` restriction at the root -/
 def specValueOnly (depth : Nat) (b : Board) (only : List String) : Int := (specSearch depth (b, only)).1
 
-/-- every root move with its exact value (each child is searched on its own with the full window) -/
-def rootValues (depth : Nat) (b : Board) (only : List String) : List (Move × Int) :=
-  (rootMoves b only).map fun m => (m, - specValue (depth - 1) (make b m))
+/-- does the root move `m` attain the value `v`?  The child is searched on its own with the null window around `-v`
+(`C08.attains_iff`: by the fail-soft contract the answer is `-v` exactly when the child's minimax value is `-v`);
+for a value on the rim of the score range, with the full window. -/
+def attains (depth : Nat) (b : Board) (v : Int) (m : Move) : Bool :=
+  if lossScore < v && v < -lossScore then
+    (ab game searchOrder (depth - 1) (make b m, []) (-v - 1) (-v + 1)).1 == -v
+  else (specSearch (depth - 1) (make b m, [])).1 == -v
 
 /-- all root moves attaining the value, as UCI strings -/
 def specBestMovesOnly (depth : Nat) (b : Board) (only : List String) : List String :=
   let v := specValueOnly depth b only
-  ((rootValues depth b only).filter fun mv => mv.2 == v).map fun mv => mv.1.uci
+  ((rootMoves b only).filter (attains depth b v)).map Move.uci
 
 def specBestMoves (depth : Nat) (b : Board) : List String := specBestMovesOnly depth b []
+
+/-! ## Forced mate (specification side of the second half of C08) -/
+
+/-- checkmated: no legal move and in check -/
+def Checkmated (b : Board) : Prop := genLegal b = [] ∧ isCurrentInCheck b = true
+
+/-- the move `m` mates at once, or the opponent has replies and after each of them the mover can force mate in `n` -/
+def KeepsMate (F : Board → Prop) (b : Board) (m : Move) : Prop :=
+  Checkmated (make b m) ∨ (genLegal (make b m) ≠ [] ∧ ∀ m' ∈ genLegal (make b m), F (make (make b m) m'))
+
+/-- the side to move can force mate in at most `n` moves of its own, against every defence -/
+def ForcedMate : Nat → Board → Prop
+  | 0, _ => False
+  | n + 1, b => ∃ m ∈ genLegal b, KeepsMate (ForcedMate n) b m
+
+/-- the full-move number at which a mate delivered by the `n`-th move of the side to move in `b` stands on the board
+(`make` advances the number after a black move) -/
+def mateFull (b : Board) (n : Nat) : Int := (b.fullmove : Int) + (n : Int) - 1 + (b.turn : Int)
 
 def renderValue (v : Int) (b : Board) : String := (scoreFromValue v b).render
 
